@@ -22,6 +22,11 @@ CHECKS = {
    note="In-process Execute error == non-zero exit (cmd/swagger/swagger.go). Known finding: --format json always exits 0 (pinned by TestDiffProcessIgnores).",
    technique="explicit enumeration of (pair, ignore subset, format) through the real command, coherence oracle",
    ref="3/C15"),
+ "C19": dict(
+   text="Every document of a bounded space (base spec + one of 60 YAML-ambiguous strings or 11 typed values at one of 13+4 value/key positions) is run through the real command objects (flatten, expand, mixin; thorough: flatten full, generate spec --input) in every input-format x output-format combination, and init spec over 6 option fields; clause (i) YAML output loads JSON-equal to JSON output, clause (ii) same result for JSON and YAML input.",
+   note="Deciding loader is loads.Spec; numbers compared as float64 (both paths go through float64). The harness' YAML rendering of the input is checked to load back equal before clause (ii) is applied. Loader panics inside go-openapi/analysis (property named %) are classified as unloadable input, not findings. Known finding: the string << (yaml.v3 encoder).",
+   technique="explicit enumeration of (scalar x position x command x format combination) through the real commands, differential oracle JSON vs YAML",
+   ref="3/C19"),
 }
 NOT_BUILT = {}
 ALL = ["C%02d" % i for i in range(1, 20)]
